@@ -40,7 +40,7 @@ def run(ctx):
                 pre, pim = Q.corner_of_phases(ph)
                 mode = rng.choice(["achievable"] * 6 + ["scaled", "perturbed"])
                 if mode == "scaled":
-                    f = rng.choice([0.5, 0.9, 0.999, 1.001, 1.1, 2.0])
+                    f = rng.choice([0.5, 0.9, 0.999, 1.001, 1.1, 2.0, 1.0005, 0.9995, 1.0002])
                     pre, pim = [x * f for x in pre], [x * f for x in pim]
                 elif mode == "perturbed":
                     e = rng.choice([1e-6, 1e-4, 1e-2, 1e-1])
@@ -52,6 +52,13 @@ def run(ctx):
                 if rng.random() < 0.12:
                     c["perturb"] = hexf(tol * 10 ** rng.choice([3, 4, 5]))
                 cases.append(c)
+        # slightly mis-scaled corners (|P(1)| within 1e-3 of 1) at tight tolerances: unachievable, must raise
+        for d in ([2, 3, 5, 8] if quick else range(1, 13)):
+            for f in (1.0005, 0.9995):
+                ph = (gen_phases(rng, d, rng.choice(["generic", "moderate"])) + [0.1] * (d + 1))[: d + 1]
+                pre, pim = Q.corner_of_phases(ph)
+                cases.append({"fn": "qspp", "poly": Q.cplx_hex([x * f for x in pre], [x * f for x in pim]), "complex": True, "signal_operator": "Wx",
+                              "measurement": "z", "tolerance": hexf(rng.choice([1e-6, 1e-8])), "kind": "misscaled", "mode": "scaled", "timeout": 300})
         # not the corner of any QSP unitary because both parities are present: an achievable corner plus an off-parity term
         for d in ([2, 3, 4, 7] if quick else range(1, 13)):
             for rep in range(2 if quick else 6):
